@@ -60,6 +60,10 @@ func (S *LevelDbStore) GetCertRevocationStatus(issuer *pkix.RDNSequence, certSer
 	s := issuer.String() + "_" + certSerial.String()
 	hash := hashing.Sum64(s)
 	revokedCertBytes, err := S.Db.Get(hash, nil)
+	if err != nil && err != leveldb.ErrNotFound {
+		//only a missing key means not revoked, everything else is a storage failure
+		return nil, fmt.Errorf("could not read revocation status from leveldb: %v", err)
+	}
 	revoked := false
 	var revokedCert *pkix.RevokedCertificate
 	if err == nil {
